@@ -151,7 +151,7 @@ func TestVerif_C08_RtmpRead(t *testing.T) {
 	m.Rule("rtmpread: generated sessions (library writer; reference chunker with interleaving); for each: EVERY cut offset 0..N (all structure " +
 		"boundaries +-2 plus a PRNG sample when N > 8 KiB) under a PRNG segmentation, and an injected sentinel error at EVERY read call index under " +
 		"{whole, random, 1-byte (N<=2000)} segmentation; completion offsets from the reference parser; distinct = (session, fault position)")
-	n := m.N(40, 2000)
+	n := m.N(40, 12000)
 	m.Require("cut_offsets_enumerated", int64(n*100))
 	m.Require("read_call_indexes_enumerated", int64(n*20))
 	m.Require("sessions_exhaustive_in_offsets", int64(n/2))
@@ -261,7 +261,7 @@ func TestVerif_C08_RtmpWrite(t *testing.T) {
 	m.Rule("rtmpwrite: message sequences written through WriteMessage/WritePacket with the transport failing at EVERY write call index, with " +
 		"and without a short write; the operation in progress must return an error whose root cause is the sentinel, and the bytes that reached " +
 		"the transport must be a prefix of the fault-free serialisation; distinct = (sequence, call index, short)")
-	n := m.N(60, 2000)
+	n := m.N(60, 12000)
 	m.Require("write_call_indexes_enumerated", int64(n*3))
 	mon.Parallel(n, func(w, i int) {
 		r := m.Rand("wsess", i)
